@@ -114,7 +114,8 @@ func cmpTx(o *cmpOut, mt *m.Tx, a *ast.Transaction) {
 		}
 	}
 	if mt.HC != nil {
-		if len(a.Comments) < 1 || a.Comments[0].Text != mt.HC.Body() {
+		// blanks at the end of the line are not part of what the comment says
+		if len(a.Comments) < 1 || strings.TrimRight(a.Comments[0].Text, " \t") != strings.TrimRight(mt.HC.Body(), " \t") {
 			o.add("c03.header-comment.text", "header comment: parsed %v, written %q", a.Comments, mt.HC.Body())
 		} else {
 			cmpTags(o, "header-comment", mt.HC, a.Comments[0].Tags)
@@ -191,7 +192,7 @@ func cmpTx(o *cmpOut, mt *m.Tx, a *ast.Transaction) {
 			cmpAmount(o, "assertion", &p.Assert.A, &ap.BalanceAssertion.Amount)
 		}
 		if p.Comment != nil {
-			if ap.Comment != p.Comment.Body() {
+			if strings.TrimRight(ap.Comment, " \t") != strings.TrimRight(p.Comment.Body(), " \t") {
 				o.add("c03.posting.comment", "comment: parsed %q, written %q", ap.Comment, p.Comment.Body())
 			}
 			cmpTags(o, "posting", p.Comment, ap.Tags)
